@@ -295,6 +295,15 @@ class State:
             return 'FAIL deleting every simplex of order %d left %r' % (k, _short(sorted(map(repr, set(named(c)) - set(want)))))
         return self._frame(h, want) or 'ok'
 
+    def o_post_dels(self, h, ss):
+        """deleteSimplices(ss) removes the listed simplices that are present with their stars, nothing else"""
+        c = self.C(h); old = self.snaps[h]
+        ss = [t for t in self.ex.names(ss) if t in old['basis']]
+        want = {t: b for t, b in old['basis'].items() if not any(old['basis'][x] <= b for x in ss)}
+        if named(c) != want:
+            return 'FAIL deleteSimplices(%r) left %r' % (ss, _short(sorted(map(repr, named(c)))))
+        return self._frame(h, want) or 'ok'
+
     def o_post_restrict(self, h, bs):
         c = self.C(h); old = self.snaps[h]; keep = set(self.ex.names(bs))
         want = {t: b for t, b in old['basis'].items() if b <= keep}
@@ -362,8 +371,16 @@ class State:
         return self._frame(dst, old['basis']) or 'ok'
 
     # ---- C03 -------------------------------------------------------------------------------------------
+    def o_rviews(self, h):
+        """the views of a representation driven by its primitive calls (faces need not close up, so no d.d = 0)"""
+        if h not in self.ex.reps or h in self.ex.raw_deleted:
+            return 'ok'
+        return self._views(self.ex.reps[h], proper=False)
+
     def o_views(self, h):
-        c = self.C(h)
+        return self._views(self.C(h))
+
+    def _views(self, c, proper=True):
         mo = B.maxOrder(c)
         ss = B.simplices(c)
         for k in range(0, mo + 2):
@@ -384,7 +401,7 @@ class State:
                 for i, r in enumerate(rows):
                     if (M[i, j] == 1) != (r in fs) or M[i, j] not in (0, 1):
                         return 'FAIL boundaryOperator(%d)[%d,%d] disagrees with faces(%r)' % (k, i, j, s)
-            if k >= 2:
+            if k >= 2 and proper:
                 P = (numpy.array(B.boundaryOperator(c, k - 1), dtype=int) @ numpy.array(M, dtype=int)) % 2
                 if P.any():
                     return 'FAIL consecutive boundary operators do not multiply to zero at %d' % k
@@ -403,7 +420,7 @@ class State:
                 bd = B.boundary(c, [s])
                 if bd != B.faces(c, s):
                     return 'FAIL boundary([s]) != faces(s)'
-                if k > 1 and B.boundary(c, list(bd)) != set():
+                if k > 1 and proper and B.boundary(c, list(bd)) != set():
                     return 'FAIL boundary of boundary of %r not empty' % (s,)
         return 'ok'
 
@@ -535,7 +552,21 @@ class State:
     def o_zbasis(self, h):
         c = self.C(h)
         mo = B.maxOrder(c)
-        z = B.Z(c, list(range(0, mo + 2)))
+        asc = list(range(0, mo + 2))
+        kss = [asc, asc[::-1]] + [[k, k] for k in asc] + [[k] for k in asc] + [asc[1::2] + asc[0::2]]
+        for ks in kss:
+            z = B.Z(c, list(ks))
+            if list(z.keys()) != list(dict.fromkeys(ks)):
+                return 'FAIL Z(%r) has keys %r' % (ks, list(z.keys()))
+            r = self._zcheck(c, mo, z, 'Z(%r)' % (ks,))
+            if r:
+                return r
+        dflt = B.Z(c)
+        if list(dflt.keys()) != list(range(1, mo + 1)):
+            return 'FAIL Z() default orders %r' % (list(dflt.keys()),)
+        return self._zcheck(c, mo, dflt, 'Z()') or 'ok'
+
+    def _zcheck(self, c, mo, z, what):
         for k, chains in z.items():
             cols = B.simplicesOfOrder(c, k)
             nk = len(cols)
@@ -547,30 +578,31 @@ class State:
                 idx = {s: i for i, s in enumerate(B.simplicesOfOrder(c, k - 1))}
                 null = nk - gf2rank([sum(1 << idx[f] for f in B.faces(c, s)) for s in cols])
             if len(chains) != null:
-                return 'FAIL Z()[%d] has %d chains, nullity is %d' % (k, len(chains), null)
+                return 'FAIL %s[%d] has %d chains, nullity is %d' % (what, k, len(chains), null)
             vecs = []
             idx = {s: i for i, s in enumerate(cols)}
             for ch in chains:
                 if any(s not in idx for s in ch):
-                    return 'FAIL Z()[%d] chain %r is not made of order-%d simplices' % (k, ch, k)
+                    return 'FAIL %s[%d] chain %r is not made of order-%d simplices' % (what, k, ch, k)
                 m = 0
                 for s in ch:
                     m ^= 1 << idx[s]
                 red = [s for s in cols if m >> idx[s] & 1]
                 if k > 0 and red and B.boundary(c, red) != set():
-                    return 'FAIL Z()[%d] chain %r has a boundary' % (k, ch)
+                    return 'FAIL %s[%d] chain %r has a boundary' % (what, k, ch)
                 vecs.append(m)
             if gf2rank(vecs) != len(vecs):
-                return 'FAIL Z()[%d] chains are dependent' % k
-        dflt = B.Z(c)
-        if list(dflt.keys()) != list(range(1, mo + 1)):
-            return 'FAIL Z() default orders %r' % (list(dflt.keys()),)
-        return 'ok'
+                return 'FAIL %s[%d] chains are dependent' % (what, k)
+        return None
 
     # ---- C10 -------------------------------------------------------------------------------------------
     def o_cmp(self, ha, hb):
         a, b = self.C(ha), self.C(hb)
         sa, sb = B.simplices(a), B.simplices(b)
+        for x in (a, b):
+            # a filtration is compared as the complex it shows: this oracle reads it at its last index only
+            if isinstance(x, Filtration) and len(x.simplices()) != len(B.simplices(x)):
+                return 'ok'
         le = all(s in sb and B.orderOf(b, s) == B.orderOf(a, s) and B.faces(a, s) == B.faces(b, s) for s in sa)
         ge = all(s in sa and B.orderOf(a, s) == B.orderOf(b, s) and B.faces(a, s) == B.faces(b, s) for s in sb)
         want = dict(le=le, lt=le and len(sa) < len(sb), ge=ge, gt=ge and len(sb) < len(sa),
@@ -578,6 +610,18 @@ class State:
         got = dict(le=a <= b, lt=a < b, ge=a >= b, gt=a > b, eq=a == b, ne=a != b)
         if got != want:
             return 'FAIL comparisons %r, expected %r' % (got, want)
+        return 'ok'
+
+    def o_equal(self, ha, hb):
+        """a complex and a copy of it (copy(), copy into an empty complex, snapshot at the last index) are equal"""
+        a, b = self.C(ha), self.C(hb)
+        for x in (a, b):
+            if isinstance(x, Filtration) and len(x.simplices()) != len(B.simplices(x)):
+                return 'ok'
+        got = dict(le=a <= b, lt=a < b, ge=a >= b, gt=a > b, eq=a == b, ne=a != b)
+        want = dict(le=True, lt=False, ge=True, gt=False, eq=True, ne=False)
+        if got != want:
+            return 'FAIL a complex and its copy compare as %r' % (got,)
         return 'ok'
 
     # ---- C11 / C12 -------------------------------------------------------------------------------------
@@ -711,6 +755,8 @@ class State:
         compatible = all(na[s] == nb[s] for s in na if s in nb) and \
             all(s == t for s in na for t in nb if na[s] == nb[t])
         # what the library did is read from the previous call's result, not from the script
+        if self.last == 'rejK':
+            return 'FAIL compose raised KeyError (%s pair); the documented rejection is ValueError' % ('a compatible' if compatible else 'an incompatible')
         if self.last == 'rej':
             return 'ok' if not compatible else 'FAIL compose rejected a compatible pair'
         if not self.last.startswith('ok'):
@@ -823,10 +869,31 @@ class State:
             sfile.write_json(big, path)
             sfile.write_json(c, path)
             d = sfile.read_json(path)
+            # the same through a file in which the complex sits inside other JSON, and a file without any complex
+            with open(path, 'w') as f:
+                f.write('{"a": [%s, 1], "b": {"c": %s}, "d": 2}' % (txt, txt))
+            w = sfile.read_json(path)
+            with open(path, 'w') as f:
+                f.write('[%s]' % txt)
+            w2 = sfile.read_json(path)
+            with open(path, 'w') as f:
+                f.write('{"x": [1, {"y": null}], "z": "w"}')
+            w3 = sfile.read_json(path)
         except Exception as e:
             return 'FAIL write_json then read_json on an existing file raised %s: %r' % (type(e).__name__, e)
         finally:
             os.unlink(path)
+        if w3 != {'x': [1, {'y': None}], 'z': 'w'}:
+            return 'FAIL read_json changed a file without an encoded complex: %r' % (w3,)
+        try:
+            inner = [w['a'][0], w['b']['c'], w2[0]]
+            if w['a'][1] != 1 or w['d'] != 2 or len(w2) != 1:
+                return 'FAIL read_json changed the JSON around an encoded complex'
+        except Exception as e:
+            return 'FAIL read_json of a complex inside other JSON: %s' % type(e).__name__
+        for x in inner:
+            if not isinstance(x, SimplicialComplex) or x.simplices() != list(vis) or any(x.faces(s) != B.faces(c, s) or x[s] != B.getAttributes(c, s) for s in vis):
+                return 'FAIL read_json did not decode a complex inside other JSON'
         if d.simplices() != list(vis) or [type(x) for x in d.simplices()] != [type(x) for x in vis]:
             return 'FAIL write_json/read_json names'
         for s in vis:
@@ -921,6 +988,9 @@ class State:
             return 'FAIL integrate = %r, level-set sum gives %r' % (got, lv)
         if full_state(c) != before:
             return 'FAIL integrate modified its argument'
+        again = self.ex.integrator(k, dflt).integrate(c)      # the integrator object the script has been using all along
+        if again != want:
+            return 'FAIL integrate = %r from an integrator that has been used before, %r from a new one' % (again, want)
         I = EulerIntegrator(k, dflt)
         for s in B.simplices(c):
             if I.metric(c, s) != B.getAttributes(c, s).get(k, dflt):
@@ -1140,6 +1210,8 @@ class State:
     # ---- small helpers used by several suites -------------------------------------------------------------
     def o_lastok(self, what='the call'):
         """the previous call must have succeeded (it is valid by construction of the script)"""
+        if self.last.startswith('err') or self.last == '':
+            raise RuntimeError('no call to judge: ' + self.last)      # (a shrunk script that lost its objects)
         return 'ok' if self.last.startswith('ok') else 'FAIL %s failed on a valid input: %s' % (what.replace('_', ' '), self.last)
 
     def o_rejected(self):
@@ -1155,6 +1227,9 @@ class State:
         k = key_obj(int(key)); dflt = int(dflt)
         I = EulerIntegrator(k, dflt)
         a, b, u = I.integrate(self.C(ha)), I.integrate(self.C(hb)), I.integrate(self.C(hu))
+        J = self.ex.integrator(k, dflt)
+        if (J.integrate(self.C(hu)), J.integrate(self.C(hb)), J.integrate(self.C(ha))) != (u, b, a):
+            return 'FAIL an integrator that has been used before integrates differently from a new one'
         return 'ok' if a + b == u else 'FAIL integral over a disjoint union %r != %r + %r' % (u, a, b)
 
     def o_vrmono(self, seed, n):
